@@ -10,6 +10,15 @@ PLAN = {
 }
 
 
+def _forth_engine(pid, tier, seed, known):
+    from . import forth
+    return forth.engine(pid, tier, seed, known)
+
+
+from . import forth as _forth_mod   # noqa: E402  (for the trusted-base text)
+PLAN["C19"] = {"kernels": [], "kinds": [], "extra": [_forth_engine], "trusted": _forth_mod.TRUSTED}
+
+
 def symbols_for(P, KI):
     pats = [re.compile(p) for p in P.get("kernels", [])]
     out = []
